@@ -80,4 +80,28 @@ Padded(s, pw, mode, parab) ==
     IN  IF k <= 1 THEN NoExtrema
         ELSE IF w = 0 THEN e
         ELSE PadLoop(ReflectOdd(e[1], w), EdgePad(e[2], w), w, Len(s))
+
+---------------------------------------------------------------------------
+(* Behaviour beyond the listed properties that rests on the same extrema rules.                          *)
+
+\* zero_crossing_count: sign changes between neighbouring samples (sign in {-1, 0, 1})
+Sgn(v) == IF v > 0 THEN 1 ELSE IF v < 0 THEN -1 ELSE 0
+ZeroCrossings(s) == Cardinality({i \in 1..(Len(s) - 1) : Sgn(s[i]) # Sgn(s[i + 1])})
+\* scipy.signal.find_peaks counts one peak per PLATEAU that is higher than the samples on both sides
+PlateauPeaks(s) == Cardinality({i \in 2..(Len(s) - 1) :
+                      /\ s[i - 1] < s[i]
+                      /\ \E j \in i..(Len(s) - 1) : (\A k \in i..j : s[k] = s[i]) /\ s[j + 1] < s[i]})
+\* is_imf, first criterion: number of extrema and of zero crossings differ by at most one; evaluated only when
+\* both envelopes of the column exist (otherwise both checks are left False)
+IsImfCountCheck(s) ==
+    LET hasEnv == Padded(s, 2, "peaks", FALSE) # NoExtrema /\ Padded(s, 2, "troughs", FALSE) # NoExtrema
+        d == ZeroCrossings(s) - (PlateauPeaks(s) + PlateauPeaks(Neg(s)))
+    IN  hasEnv /\ d <= 1 /\ d >= -1
+\* utils.find_extrema_locked_epochs: windows of +-winsize/2 around each extremum that fit into the record
+Epochs(s, winsize, mode) ==
+    LET e == Extrema(s, mode, FALSE)
+        h == winsize \div 2
+        locs == [i \in 1..Len(e[1]) |-> e[1][i] \div LS]
+        keep == {i \in 1..Len(locs) : locs[i] - h >= 0 /\ locs[i] + h <= Len(s)}
+    IN  [i \in keep |-> <<locs[i] - h, locs[i] + h>>]
 =============================================================================
